@@ -18,7 +18,11 @@ class Scenario:
             env.update(ENV_SEQ)
         self.proj = s1.Project(dud, os.path.join(self.base, "p"), cache_mode=case.get("cache", "rel"), cwd_sub=case.get("cwd", b""),
                                remote=True, env_extra=env)
+        mounts = []
         for k, p, *rest in case["init"]:
+            if k == "mount":
+                mounts.append(self.proj.add_mount(p))
+                continue
             self.proj.put(k, p, rest[0] if rest else None)
         for sp, st in case["stages"]:
             self.proj.write_stage(sp, st)
@@ -31,6 +35,7 @@ class Scenario:
         self.extra_dirs = []
         if self.proj.cache_mode == "shm":
             self.extra_dirs.append(self.proj.shm)
+        self.extra_dirs += mounts
         self.save()
 
     def save(self):
